@@ -27,11 +27,17 @@ impl Wake for Flag {
     }
 }
 
+/// Canonical text forms of behaviour outputs and state snapshots.
+#[derive(Clone)]
+pub struct Fmt {
+    pub tables: Arc<Tables>,
+    pub sdh: bool,
+}
+
 pub struct NodeExec {
     pub node: Behaviour<S, ScriptedStore>,
     pub store: ScriptedStore,
-    pub tables: Arc<Tables>,
-    pub sdh: bool,
+    pub fmt: Fmt,
     flag: Arc<Flag>,
     waker: Waker,
     addr: Multiaddr,
@@ -54,6 +60,10 @@ fn num_keys(v: Vec<String>) -> String {
     n.into_iter().map(|x| x.1).collect::<Vec<_>>().join("+")
 }
 
+pub fn conn_num(c: &ConnectionId) -> u64 {
+    format!("{c:?}").trim_start_matches("ConnectionId(").trim_end_matches(')').parse::<u64>().unwrap_or(u64::MAX)
+}
+
 impl NodeExec {
     pub fn new(sdh: bool, tables: Arc<Tables>) -> Self {
         v::clock::reset();
@@ -63,9 +73,11 @@ impl NodeExec {
             .build();
         let flag = Arc::new(Flag(AtomicBool::new(false)));
         let waker = Waker::from(flag.clone());
-        NodeExec { node, store, tables, sdh, flag, waker, addr: "/memory/1".parse().unwrap() }
+        NodeExec { node, store, fmt: Fmt { tables, sdh }, flag, waker, addr: "/memory/1".parse().unwrap() }
     }
+}
 
+impl Fmt {
     fn entry_kind(&self, e: &Entry) -> String {
         let k = self.tables.key(&e.block);
         let want = |wt: WantType| e.priority == 1 && !e.cancel && e.wantType == wt && e.sendDontHave == self.sdh;
@@ -128,12 +140,12 @@ impl NodeExec {
         sorted_join(v, "+")
     }
 
-    fn show_event(&self, ev: ToSwarm<Event, ToHandlerEvent>) -> String {
+    pub fn show_event(&self, ev: &ToSwarm<Event, ToHandlerEvent>) -> String {
         match ev {
             ToSwarm::GenerateEvent(Event::GetQueryResponse { query_id, data }) => {
                 let q = format!("{query_id:?}");
                 let q = q.trim_start_matches("QueryId(").trim_end_matches(')').to_string();
-                let d = id_of_data(&data).map(|x| x.to_string()).unwrap_or_else(|| format!("?{}", crate::text::hex(&data)));
+                let d = id_of_data(data).map(|x| x.to_string()).unwrap_or_else(|| format!("?{}", crate::text::hex(data)));
                 format!("resp:{q}:{d}")
             }
             ToSwarm::GenerateEvent(Event::GetQueryError { query_id, error }) => {
@@ -147,11 +159,11 @@ impl NodeExec {
                 format!("err:{q}:{kind}")
             }
             ToSwarm::NotifyHandler { peer_id, handler, event } => {
-                let p = self.tables.peer(&peer_id);
+                let p = self.tables.peer(peer_id);
                 match (handler, event) {
-                    (NotifyHandler::One(c), ToHandlerEvent::SendWantlist(w)) => self.show_wantlist(&p, c, &w),
+                    (NotifyHandler::One(c), ToHandlerEvent::SendWantlist(w)) => self.show_wantlist(&p, *c, w),
                     (NotifyHandler::Any, ToHandlerEvent::QueueOutgoingMessages(bs)) => {
-                        format!("blk:{}:{}", p, self.show_blocks(&bs, true))
+                        format!("blk:{}:{}", p, self.show_blocks(bs, true))
                     }
                     (h, e) => format!("odd-notify:{p}:{h:?}:{e:?}").replace(' ', "_"),
                 }
@@ -160,6 +172,18 @@ impl NodeExec {
         }
     }
 
+    pub fn show_started(&self, started: Vec<(u64, CallKind)>) -> Vec<String> {
+        started
+            .into_iter()
+            .map(|(seq, kind)| match kind {
+                CallKind::Get(c) => format!("get:{}:{}", seq, self.tables.key(&c)),
+                CallKind::Put(bs) => format!("put:{}:{}", seq, self.show_blocks(&bs, false)),
+            })
+            .collect()
+    }
+}
+
+impl NodeExec {
     /// Poll until `Pending` with no self-wake. Returns sorted outputs.
     pub fn drain(&mut self) -> Vec<String> {
         let mut outs = Vec::new();
@@ -168,7 +192,7 @@ impl NodeExec {
             self.flag.0.store(false, Ordering::SeqCst);
             let mut cx = Context::from_waker(&self.waker);
             match self.node.poll(&mut cx) {
-                Poll::Ready(ev) => outs.push(self.show_event(ev)),
+                Poll::Ready(ev) => outs.push(self.fmt.show_event(&ev)),
                 Poll::Pending => {
                     if !self.flag.0.load(Ordering::SeqCst) {
                         break;
@@ -181,21 +205,22 @@ impl NodeExec {
                 break;
             }
         }
-        for (seq, kind) in self.store.take_started() {
-            outs.push(match kind {
-                CallKind::Get(c) => format!("get:{}:{}", seq, self.tables.key(&c)),
-                CallKind::Put(bs) => format!("put:{}:{}", seq, self.show_blocks(&bs, false)),
-            });
-        }
+        outs.extend(self.fmt.show_started(self.store.take_started()));
         outs.sort();
         outs
     }
 
     pub fn state(&self) -> String {
-        let c = VNode::client_snapshot(&self.node);
-        let s = VNode::server_snapshot(&self.node);
+        self.fmt.state(&self.node)
+    }
+}
+
+impl Fmt {
+    pub fn state<B: blockstore::Blockstore + 'static>(&self, node: &Behaviour<S, B>) -> String {
+        let c = VNode::client_snapshot(node);
+        let s = VNode::server_snapshot(node);
         let t = &self.tables;
-        let conn = |c: &ConnectionId| format!("{c:?}").trim_start_matches("ConnectionId(").trim_end_matches(')').parse::<u64>().unwrap_or(u64::MAX);
+        let conn = |c: &ConnectionId| conn_num(c);
         let mut peers: Vec<(u64, String)> = c
             .peers
             .iter()
@@ -283,7 +308,9 @@ impl NodeExec {
             s.tasks
         )
     }
+}
 
+impl NodeExec {
     fn exec_inner(&mut self, toks: &[&str]) -> String {
         let num = |s: &str| s.parse::<u64>().ok();
         let pairs = |s: &str| -> Option<Vec<(u64, u64)>> {
